@@ -33,26 +33,26 @@ type RemoteSpec struct {
 
 // Config selects the application's behaviour.
 type Config struct {
-	Social         bool     `json:"social"`
-	Federating     bool     `json:"federating"`
-	AuthGetInbox   int      `json:"auth_get_inbox,omitempty"` // 0 ok, 1 deny (app writes 401), 2 error
-	AuthGetOutbox  int      `json:"auth_get_outbox,omitempty"`
-	AuthPostInbox  int      `json:"auth_post_inbox,omitempty"`
-	AuthPostOutbox int      `json:"auth_post_outbox,omitempty"`
-	Blocked        int      `json:"blocked,omitempty"` // 0 no, 1 yes, 2 error, 3 by set
-	BlockedSet     []string `json:"blocked_set,omitempty"`
-	OnFollow       int      `json:"on_follow,omitempty"`
-	FedWrapped     bool     `json:"fed_wrapped,omitempty"` // application callbacks inside the wrapped struct
-	FedOther       []string `json:"fed_other,omitempty"`   // type keys with an overriding 'other' callback
-	SocWrapped     bool     `json:"soc_wrapped,omitempty"`
-	SocOther       []string `json:"soc_other,omitempty"`
-	MaxDelivery    int      `json:"max_delivery_depth"`
-	MaxForward     int      `json:"max_forward_depth"`
-	Filter         string   `json:"filter,omitempty"` // all | none | first
-	DeliverFails   bool     `json:"deliver_fails,omitempty"`
-	ClockUnix      int64    `json:"clock_unix"`
-	ClockOffsetMin int      `json:"clock_offset_min,omitempty"`
-	GetNilForMissing bool   `json:"get_nil_for_missing,omitempty"` // Get returns (nil, nil) for unknown ids
+	Social           bool     `json:"social"`
+	Federating       bool     `json:"federating"`
+	AuthGetInbox     int      `json:"auth_get_inbox,omitempty"` // 0 ok, 1 deny (app writes 401), 2 error
+	AuthGetOutbox    int      `json:"auth_get_outbox,omitempty"`
+	AuthPostInbox    int      `json:"auth_post_inbox,omitempty"`
+	AuthPostOutbox   int      `json:"auth_post_outbox,omitempty"`
+	Blocked          int      `json:"blocked,omitempty"` // 0 no, 1 yes, 2 error, 3 by set
+	BlockedSet       []string `json:"blocked_set,omitempty"`
+	OnFollow         int      `json:"on_follow,omitempty"`
+	FedWrapped       bool     `json:"fed_wrapped,omitempty"` // application callbacks inside the wrapped struct
+	FedOther         []string `json:"fed_other,omitempty"`   // type keys with an overriding 'other' callback
+	SocWrapped       bool     `json:"soc_wrapped,omitempty"`
+	SocOther         []string `json:"soc_other,omitempty"`
+	MaxDelivery      int      `json:"max_delivery_depth"`
+	MaxForward       int      `json:"max_forward_depth"`
+	Filter           string   `json:"filter,omitempty"` // all | none | first
+	DeliverFails     bool     `json:"deliver_fails,omitempty"`
+	ClockUnix        int64    `json:"clock_unix"`
+	ClockOffsetMin   int      `json:"clock_offset_min,omitempty"`
+	GetNilForMissing bool     `json:"get_nil_for_missing,omitempty"` // Get returns (nil, nil) for unknown ids
 }
 
 // Scheduler is implemented by the controlled scheduler (C08).
@@ -81,20 +81,20 @@ type World struct {
 	Remote      map[string]RemoteSpec
 	Cfg         Config
 
-	Log      []Event
-	nextID   int
-	Issued   []string // ids handed out by NewID, in order
-	fallible int
-	FailAt   map[int]bool // fallible call indices (1-based) made to fail
-	Sched    Scheduler
-	RealLock bool
-	lockMu   sync.Mutex
-	lockCond *sync.Cond
-	lockOwn  map[string]string
-	lockWait map[string]string // request -> key it is blocked on (RealLock)
-	live     map[string]bool   // requests inside Do (RealLock)
-	RealPanics []string        // panics of finished requests (RealLock), under lockMu
-	Jitter   func()
+	Log        []Event
+	nextID     int
+	Issued     []string // ids handed out by NewID, in order
+	fallible   int
+	FailAt     map[int]bool // fallible call indices (1-based) made to fail
+	Sched      Scheduler
+	RealLock   bool
+	lockMu     sync.Mutex
+	lockCond   *sync.Cond
+	lockOwn    map[string]string
+	lockWait   map[string]string // request -> key it is blocked on (RealLock)
+	live       map[string]bool   // requests inside Do (RealLock)
+	RealPanics []string          // panics of finished requests (RealLock), under lockMu
+	Jitter     func()
 
 	// pages served by GetInbox/GetOutbox of the protocols (C20)
 	InboxPage  interface{}
@@ -637,8 +637,12 @@ func (w *World) put(c context.Context, kind string, t vocab.Type, mustExist, mus
 	return nil
 }
 
-func (d DB) Create(c context.Context, t vocab.Type) error { return d.W.put(c, "db.Create", t, false, true) }
-func (d DB) Update(c context.Context, t vocab.Type) error { return d.W.put(c, "db.Update", t, true, false) }
+func (d DB) Create(c context.Context, t vocab.Type) error {
+	return d.W.put(c, "db.Create", t, false, true)
+}
+func (d DB) Update(c context.Context, t vocab.Type) error {
+	return d.W.put(c, "db.Update", t, true, false)
+}
 
 func (d DB) Delete(c context.Context, id *url.URL) error {
 	w := d.W
